@@ -23,9 +23,9 @@ import (
 
 type invBase struct {
 	key  string
-	poly *Poly   // the base as a polynomial
-	atom *Term   // non-nil when the base is a residue atom (negative exponents in monomials)
-	fpow *Term   // non-nil when the base appears as the atom fpow(q, M-2)
+	poly *Poly // the base as a polynomial
+	atom *Term // non-nil when the base is a residue atom (negative exponents in monomials)
+	fpow *Term // non-nil when the base appears as the atom fpow(q, M-2)
 	maxK int64
 }
 
